@@ -146,6 +146,10 @@ func (p *polling) onDataRequest(ctx *types.HttpContext) {
 
 	onClose := func(...any) {
 		cleanup()
+		if p.ReadyState() != "open" {
+			// aborted by DoClose: not an error of the peer
+			return
+		}
 		p.OnError("data request connection closed prematurely", nil)
 	}
 
